@@ -47,6 +47,9 @@ TECHNIQUE += '; set-iteration-order dataflow rule; all-paths-raise on arithmetic
 TECHNIQUE += '; argparse table comparison; guard matrix borrowed for the pre-flight clause'
 EXPLANATION += " Added: (R8) the converter's argument table is the documented one (options, positionals, defaults, actions) and the parsed values reach convert() as parsed, the loaded object is not edited before it is written; (R9) what a writer cannot store is refused by its prepare_dump -- before the API opens (truncates) the output file -- not by its dump_one (guard matrix C08-R5)."
 # --- end metadata batch 7
+# --- metadata added for batch 8
+EXPLANATION += ' Added: (R10) the same ordering clause for the converter (C08-R1).'
+# --- end metadata batch 8
 
 
 def _polarity_of_many(test, param="many"):
